@@ -144,8 +144,8 @@ pub const PROPS: &[PropSpec] = &[
         classes: &["http/", "read/", "get/", "head/", "import/", "append/id-not-increasing", "cas/empty-post-status", "cas/hash", "follow/threshold-missing"],
         nontrivial: &[&["http:append-ok"], &["http:400", "http:404", "http:store-rejected", "http:unknown-route", "http:client-disconnect"], &["http:cat-ndjson", "http:cat-sse", "http:head"]],
         must_reach: &["http:append-ok", "http:400", "http:404", "http:store-rejected", "http:unknown-route", "http:client-disconnect", "http:fragmented", "http:backpressure", "http:chunked-body", "http:body>8KiB", "http:bodyless-append", "http:cat-ndjson", "http:cat-sse", "http:head", "http:keep-alive", "cas:post", "cas:get", "cas:empty-post", "import:ok", "import:rejected", "follow:tail", "follow:history", "follow:head", "follow:live-frames", "remove:live"],
-        quick_runs: 2400,
-        thorough_runs: 150_000,
+        quick_runs: 1200,
+        thorough_runs: 60_000,
         rule: "request sequences (5-45 requests over every route, valid and invalid ids / contexts / TTLs / option strings / xs-meta payloads / bodies, NDJSON and SSE, follow streams kept open across later requests) sent to the real hyper server over in-memory pipes of 1..65536 bytes, fragmented at seeded offsets, chunked or fixed-length, some cut by a client disconnect; after every request the response and the store are compared with the reference model and with the Store API; non-trivial = a successful append, a rejected/unknown/cut request and a read all happened; distinct = distinct trace hash",
     },
     PropSpec {
@@ -162,12 +162,12 @@ pub const PROPS: &[PropSpec] = &[
     PropSpec {
         id: "C10",
         engine: "e4",
-        mix: &[("e4", 5), ("e1", 1), ("e5", 3)],
+        mix: &[("e4", 10), ("e1", 1), ("e5", 6)],
         classes: &["cas/", "crash/cas"],
         nontrivial: &[&["http:append-ok", "cas:post", "image:kill"]],
         must_reach: &["http:append-ok", "http:chunked-body", "http:body>8KiB", "http:bodyless-append", "http:client-disconnect", "cas:post", "cas:get", "cas:empty-post", "cas:get-unknown", "image:kill", "cas:sized", "cas:stream"],
-        quick_runs: 1800,
-        thorough_runs: 120_000,
+        quick_runs: 900,
+        thorough_runs: 50_000,
         rule: "byte strings (empty, 1 byte, non-UTF-8, 8191/8192/8193 bytes, 100 KB) written through POST /{topic} (fixed-length and chunked bodies split over many transport writes, some cut by a disconnect) and POST /cas, read back through GET /cas and the Store; a monitor inside append checks at the instant a frame with a hash becomes observable that its content is already retrievable; one run in six is an E1 crash-image workload (content of every visible frame after a process kill); non-trivial = content was written; distinct = distinct trace hash",
     },
     PropSpec {
